@@ -327,6 +327,18 @@ let predict (c : case) =
         let wrapper = (match S.split_on_char '/' c.kind with _ :: "wrapper" :: _ -> true | _ -> false) in
         let cmd = if wrapper then Cli.parse_wrapper argv else Cli.parse_main argv in
         let inst = model_instance c in
+        (* the exp encoder emits one clause per element of the product of the defender sets of an
+           argument: beyond a bound the extracted model (unary nat indices) is too slow to be worth it *)
+        let too_large =
+          opt_value c "encoding" = "exp" &&
+          (match instance_of c with
+           | Some (_, n, atts, _) ->
+               let attackers a = L.filter_map (fun (x, y) -> if y = a then Some x else None) atts in
+               L.exists (fun a ->
+                   L.fold_left (fun acc b -> if acc > 3000 then acc else acc * max 1 (L.length (attackers b))) 1 (attackers a) > 3000)
+                 (L.init n (fun i -> i))
+           | None -> false) in
+        if too_large then out "model n/a-exp-encoding-too-large" else
         (match Cli.exec dpll_oracle (nat_of_int !D_static.thr) Prog.CadicalLike (nat_of_int 4000) cmd inst with
          | None -> out "model n/a"
          | Some (Cli.Exit0 b) -> out ("model exit0 " ^ hex_of_bytes (bytes_of_model b))
@@ -339,6 +351,7 @@ let run path =
   L.iter (fun c ->
       begin_case c;
       let k = class_of c in
+      let t0 = Sys.time () in
       let v =
         if k = "ok" then judge_ok c
         else if k = "problems" then judge_problems c
@@ -346,6 +359,9 @@ let run path =
         else if starts_with "err" k then judge_err c
         else "bad unknown-class" in
       out ("verdict " ^ v);
+      let t1 = Sys.time () in
       predict c;
+      (if Sys.getenv_opt "VERIF_CLI_TIMING" <> None && Sys.time () -. t0 > 1.0 then
+         prerr_endline (Printf.sprintf "slow case %s %s: oracle %.1fs model %.1fs" c.id c.kind (t1 -. t0) (Sys.time () -. t1)));
       end_case ()) (read_cases path);
   flush_out ()
